@@ -193,14 +193,17 @@ Definition remote_compute_cache (d : delegate) (pop : list ind) : dict graph :=
   end.
 
 (* ------------------------------------------------------------------------------------- *)
-(* SequentialDispatcher.evaluate_population (what dispatch() returns; no reversal, cache  *)
-(* never filled, cache_key never passed: the delegate evaluator is never consulted)       *)
+(* SequentialDispatcher.evaluate_population (what dispatch() returns): no reversal; the     *)
+(* delegate cache is computed for the whole input population in input order and every      *)
+(* evaluation looks its graph up by the individual's uid                                   *)
 (* ------------------------------------------------------------------------------------- *)
-Definition seq_single (o : objective) (timer : nat -> bool) (ki : nat * ind) : option eres * list ev :=
-  evaluate_single o [] (timer (fst ki)) true None (gr (snd ki)) (uid (snd ki)).
+Definition seq_single (o : objective) (cache : dict graph) (timer : nat -> bool) (ki : nat * ind)
+  : option eres * list ev :=
+  evaluate_single o cache (timer (fst ki)) true (Some (uid (snd ki))) (gr (snd ki)) (uid (snd ki)).
 
-Definition seq_main (o : objective) (timer : nat -> bool) (pop : list ind) : list (option eres * list ev) :=
-  map (seq_single o timer) (index_from 0 (to_evaluate pop)).
+Definition seq_main (o : objective) (cache : dict graph) (timer : nat -> bool) (pop : list ind)
+  : list (option eres * list ev) :=
+  map (seq_single o cache timer) (index_from 0 (to_evaluate pop)).
 
 (* the part after the evaluations, for an arbitrary list of results *)
 Definition seq_finish (pop : list ind) (results : list (option eres)) : res (list ind) :=
@@ -209,9 +212,9 @@ Definition seq_finish (pop : list ind) (results : list (option eres)) : res (lis
   | RaiseValueError => RaiseValueError
   end.
 
-Definition sequential_evaluate (o : objective) (timer : nat -> bool) (pop : list ind)
+Definition sequential_evaluate (o : objective) (d : delegate) (timer : nat -> bool) (pop : list ind)
   : res (list ind) * list ev :=
-  let per := seq_main o timer pop in
+  let per := seq_main o (remote_compute_cache d pop) timer pop in
   (seq_finish pop (map fst per), concat (map snd per)).
 
 (* ------------------------------------------------------------------------------------- *)
@@ -273,13 +276,16 @@ Definition evaluate_with_cache_shuffled (shuffle : list (option eres) -> list (o
   mp_finish o cache rp (shuffle (map fst per)) (concat (map snd per)).
 
 Definition sequential_evaluate_shuffled (shuffle : list (option eres) -> list (option eres))
-           (o : objective) (timer : nat -> bool) (pop : list ind) : res (list ind) * list ev :=
-  let per := seq_main o timer pop in
+           (o : objective) (d : delegate) (timer : nat -> bool) (pop : list ind) : res (list ind) * list ev :=
+  let per := seq_main o (remote_compute_cache d pop) timer pop in
   (seq_finish pop (shuffle (map fst per)), concat (map snd per)).
 
-(* the graph an individual is evaluated on by the parallel dispatcher *)
+(* the graph an individual is evaluated on by the parallel dispatcher (delegate asked about the
+   reversed population) and by the sequential one (delegate asked about the population) *)
 Definition eff_graph (d : delegate) (pop : list ind) (i : ind) : graph :=
   cached_graph (remote_compute_cache d (rev pop)) (Some (uid i)) (gr i).
+Definition eff_graph_seq (d : delegate) (pop : list ind) (i : ind) : graph :=
+  cached_graph (remote_compute_cache d pop) (Some (uid i)) (gr i).
 
 (* ------------------------------------------------------------------------------------- *)
 (* boolean equalities and small list tools for the executable predicates                   *)
@@ -384,13 +390,13 @@ Definition case_delegate (c : case) : delegate := option_map delegate_of_spec (c
 Definition model_run (shuffle : list (option eres) -> list (option eres)) (c : case)
   : res (list ind) * list ev :=
   if c_par c then evaluate_with_cache_shuffled shuffle (case_objective c) (case_delegate c) (case_timer c) (c_pop c)
-  else sequential_evaluate_shuffled shuffle (case_objective c) (case_timer c) (c_pop c).
+  else sequential_evaluate_shuffled shuffle (case_objective c) (case_delegate c) (case_timer c) (c_pop c).
 
 (* compute_graphs calls the model predicts *)
 Definition model_deleg (c : case) : list (list graph * list graph) :=
-  match c_par c, c_delegate c with
-  | true, Some s => let gs := map gr (rev (c_pop c)) in [(gs, delegate_of_spec s gs)]
-  | _, _ => []
+  match c_delegate c with
+  | Some s => let gs := map gr (if c_par c then rev (c_pop c) else c_pop c) in [(gs, delegate_of_spec s gs)]
+  | None => []
   end.
 
 Definition graphs_eqb := list_eqb Nat.eqb.
@@ -495,12 +501,23 @@ Definition clause_expired (c : case) (ob : observed) : bool :=
            && (negb (Nat.eqb (length (preevaluated c)) 0) || Nat.leb (length (o_out ob)) 1)
       else forallb (fun x => negb (is_new c x)) (o_out ob)).
 
+(* an enabled delegate: every newly evaluated individual that is returned was handed to
+   compute_graphs (so "the graph the delegate computed for it" exists or the delegate chose to
+   return none); a dispatcher that ignores the delegate fails here *)
+Definition clause_delegate (c : case) (ob : observed) : bool :=
+  match c_delegate c with
+  | None => true
+  | Some _ => forallb (fun i => negb (in_out ob i)
+                                || existsb (fun call => existsb (Nat.eqb (gr i)) (fst call)) (o_deleg ob))
+                      (unevaluated c)
+  end.
+
 Definition holds_b (c : case) (ob : observed) : bool :=
   if negb (in_scope c) then true else
   negb (o_raised ob)
   && clause_sound c ob && clause_passthrough c ob && clause_no_reevaluation c ob
   && clause_left_out c ob && clause_exactly c ob && clause_generous c ob
-  && clause_callback ob && clause_expired c ob.
+  && clause_callback ob && clause_expired c ob && clause_delegate c ob.
 
 (* which individual received which fitness, compared between two runs on one scenario *)
 Definition same_assignment_b (out1 out2 : list ind) : bool :=
